@@ -120,6 +120,7 @@ def hsStep (ts : List String) : Option String :=
     | _, _, _, _ => none
   | "nego" :: _ => some "ok"
   | "sched" :: _ => some "ok"
+  | "dfuzz" :: _ => some "ok"
   | "mx" :: _ =>
     let pk : Client.ProxyKind := match kv ts "proxy" with | some "http" => .http | some "https" => .https | some "socks5" => .socks5 | _ => .none
     let cr : Client.Cred := match kv ts "cred" with | some "user" => .user | some "userpass" => .userpass | some "userempty" => .userempty | _ => .none
